@@ -55,12 +55,22 @@ def sel_coq(s):
     return "SAll %s" % coq_str(s["dir"])
 
 
+def ign_coq(i):
+    if i["k"] == "dir":
+        return "IDir %s" % coq_str(i["dir"])
+    if i["k"] == "glob":
+        return "IGlobExt %s %s" % (coq_str(i["dir"]), coq_str(i.get("ext", "")))
+    return "ILit %s" % coq_str(i["name"])
+
+
 def rule_coq(r):
     if r["k"] == "bundle":
         kind = "KBundle %s" % cl(r.get("deps"))
     else:
-        kind = "KFileSet %s [%s] %s" % (cl(r.get("files")), "; ".join(sel_coq(s) for s in r.get("sels") or []),
-                                        cl(r.get("include")))
+        kind = "KFileSet %s [%s] [%s] %s" % (cl(r.get("files")),
+                                             "; ".join(sel_coq(s) for s in r.get("sels") or []),
+                                             "; ".join(ign_coq(i) for i in r.get("igns") or []),
+                                             cl(r.get("include")))
     return "mkRule %s (%s)" % (coq_str(r["name"]), kind)
 
 
@@ -101,7 +111,11 @@ def op_coq(op):
         else:
             c = "None"
         return "HOp (OTamper %s %s)" % (coq_str(op["out"]), c)
-    return "HBuild %s (%s)" % (cl(op["targets"]), obs_coq(op["obs"]))
+    if k == "touchout":
+        return "HOp (OTouchOut %s)" % coq_str(op["out"])
+    if k == "advance":
+        return "HOp (OAdvance %d)" % op["dt"]
+    return "HBuild %s %s (%s)" % ("true" if op.get("always") else "false", cl(op["targets"]), obs_coq(op["obs"]))
 
 
 def case_coq(c):
@@ -133,6 +147,17 @@ def sel_match(s, f):
     return "/" not in rest and rest.endswith(s.get("ext", ""))
 
 
+def ignored(igns, f):
+    for i in igns:
+        if i["k"] == "dir" and f.startswith(i["dir"] + "/"):
+            return True
+        if i["k"] == "glob" and sel_match({"k": "glob", "dir": i["dir"], "ext": i.get("ext", "")}, f):
+            return True
+        if i["k"] == "lit" and f == i["name"]:
+            return True
+    return False
+
+
 def dependents(rules, srcs, f):
     """Rules that depend, directly or not, on source file f (independent of the model)."""
     direct = {}
@@ -142,7 +167,7 @@ def dependents(rules, srcs, f):
         else:
             deps = set(r.get("files") or []) | set(r.get("include") or [])
             for s in r.get("sels") or []:
-                deps |= {x for x in srcs if sel_match(s, x)}
+                deps |= {x for x in srcs if sel_match(s, x) and not ignored(r.get("igns") or [], x)}
         direct[r["name"]] = deps
     outs = {r["name"] + ".fileset": r["name"] for r in rules if r["k"] == "file_set"}
     res = set()
@@ -165,13 +190,6 @@ def oracle(c):
     Yields (key, text, step index)."""
     if c.get("crash"):
         yield ("impl:crash", "the builder crashed or hung: %s" % c["crash"][:200], -1)
-        return
-    if c["stream"].startswith("edge-"):
-        # workspaces outside the model: same oracle, keys of their own
-        pre = "edge:" + c["stream"][5:] + ":"
-        c2 = dict(c, stream="hist")
-        for k, why, i in oracle(c2):
-            yield (pre + k.split(":", 1)[1], why, i)
         return
     rules = c["rules"]
     srcs = {s["name"] for s in c["src"]}
@@ -228,7 +246,7 @@ def oracle(c):
         # (2) nothing changed => nothing executes; a failed rule is executed again
         if prev is not None and prev[1]["targets"] == op["targets"]:
             po = prev[1]["obs"]
-            if po["ok"] and o["exec"]:
+            if po["ok"] and o["exec"] and not op.get("always"):
                 yield ("impl:noop-rebuild-executes", "a rebuild with nothing changed executed %s" % o["exec"], i)
             if not po["ok"] and po["exec"] and "build " in (po.get("err") or ""):
                 failed = po["exec"][-1]
@@ -236,7 +254,8 @@ def oracle(c):
                     yield ("impl:failed-rule-treated-as-built",
                            "rule %s failed in the previous build and was not executed again" % failed, i)
         # (3) one source changed => exactly its dependents execute
-        if prev2 is not None and prev2[0]["targets"] == op["targets"] and prev2[0]["obs"]["ok"] and o["ok"]:
+        if prev2 is not None and prev2[0]["targets"] == op["targets"] and prev2[0]["obs"]["ok"] and o["ok"] \
+                and not op.get("always"):
             f = prev2[1]["name"]
             dep = dependents(rules, srcs, f)
             extra = [r for r in o["exec"] if r not in dep]
@@ -379,7 +398,7 @@ def run(ck):
     model_ok = all(built.get(x) for x in MODEL)
     if cases and model_ok:
         from concurrent.futures import ThreadPoolExecutor
-        ok_cases = [c for c in cases if not c.get("crash") and not c["stream"].startswith("edge-")]
+        ok_cases = [c for c in cases if not c.get("crash")]
         shard = max(10, (len(ok_cases) + 11) // 12)
 
         def evaluate(s):
